@@ -46,6 +46,10 @@ pub struct HedgeCase {
     /// attempts use up the cooperative budget in the poll they complete in
     #[serde(default)]
     pub drain_budget: bool,
+    /// the response future is obtained from call() this many ms before it is first polled; the
+    /// primary attempt starts at that first poll and the delays count from the attempts' starts
+    #[serde(default)]
+    pub poll_delay: u64,
 }
 
 fn one() -> u64 {
@@ -79,9 +83,13 @@ fn case_strategy(_tier: Tier) -> BoxedStrategy<HedgeCase> {
         prop::collection::vec(any::<u8>(), 0..=8),
         prop_oneof![6 => Just(1u64), 1 => Just(3u64), 1 => Just(7u64), 1 => Just(25u64), 1 => Just(60u64), 1 => 2u64..=120],
         any::<bool>(),
-        (prop_oneof![3 => Just(0u64), 1 => 1u64..=40, 1 => (1u64..=8).prop_map(|k| k * 10)], prop::bool::weighted(0.2)),
+        (
+            prop_oneof![3 => Just(0u64), 1 => 1u64..=40, 1 => (1u64..=8).prop_map(|k| k * 10)],
+            prop::bool::weighted(0.2),
+            prop_oneof![4 => Just(0u64), 1 => 1u64..=120, 1 => (1u64..=10).prop_map(|k| k * 10)],
+        ),
     )
-        .prop_map(|(max, delay, attempts, order, step_ms, max_last, (clone_ready_ms, drain_budget))| HedgeCase {
+        .prop_map(|(max, delay, attempts, order, step_ms, max_last, (clone_ready_ms, drain_budget, poll_delay))| HedgeCase {
             max,
             delay,
             attempts,
@@ -91,6 +99,7 @@ fn case_strategy(_tier: Tier) -> BoxedStrategy<HedgeCase> {
             // coarse clock steps and paced readiness are generated separately
             clone_ready_ms: if step_ms > 1 { 0 } else { clone_ready_ms },
             drain_budget,
+            poll_delay,
         })
         .boxed()
 }
@@ -175,6 +184,10 @@ async fn interp(case: &HedgeCase) -> Verdict {
     };
     let _ = futures::future::poll_fn(|cx| svc.poll_ready(cx)).await;
     let fut = svc.call(req.clone());
+    // the future may sit un-polled for a while (collected first, driven later)
+    if case.poll_delay > 0 {
+        sim.advance(case.poll_delay).await;
+    }
     let task = sim.spawn_call(fut, map_outcome);
     sim.settle().await;
     // u64::MAX in a per-attempt table stands for Duration::MAX ("no further hedge"): such an
@@ -370,6 +383,9 @@ async fn interp(case: &HedgeCase) -> Verdict {
     }
     if case.step_ms > 1 {
         classes.push("coarse_clock_steps");
+    }
+    if case.poll_delay > 0 {
+        classes.push("first_poll_later_than_call");
     }
     if case.clone_ready_ms > 0 {
         classes.push("fresh_clones_need_time_to_become_ready");
